@@ -376,3 +376,79 @@ Example C10_repaired_reassignment :
   AllInv (run true (mkst three []) [ORegister [1] KNode; RAssign [e 2 7; e 1 8]; ORegister [1] KNode])
   /\ map v_idx (views (run true (mkst three []) [ORegister [1] KNode; RAssign [e 2 7; e 1 8]; ORegister [1] KNode])) = [[1]].
 Proof. split; [apply C10_view_inv_history|reflexivity]. Qed.
+
+(* ---- whole-field assignment and the caches around it: WholeField.v (heap of instances, wrappers with their handler
+   lists, Repeateds; list operations are Views.step on the edited wrapper) ------------------------------------------ *)
+From AB Require Import WholeField WholeFieldProofs.
+
+(* After every history on a parsed document - reading raw lists and views, whole-field assignments (accepted or
+   refused), `+=`, list edits through EVERY wrapper and view object ever obtained (old and new handles, originals and
+   copies), deep copies of wrappers - every view cached in a model is built on the wrapper the model caches, that wrapper
+   wraps the Repeated the model's field holds, and every `_raw_indexes` registered on it is exact (ViewInv) for that
+   list.  An accepted assignment makes the assigned wrapper the cached one and leaves no cached view built on the
+   replaced wrapper (drop_views_of); a view obtained afterwards is built on the wrapper cached at that moment. *)
+Theorem C10_whole_field_views_follow :
+  (forall its ops, Agree (wrun VRepaired (init_heap its) ops))
+  /\ (forall h i w h' r, Inv h -> assign VRepaired h i w = (h', Ok r) ->
+        exists ins', lookup i (h_insts h') = Some ins' /\ i_wrapper ins' = Some w
+          /\ (forall W, lookup w (h_wrps h) = Some W -> i_field ins' = w_rep W)
+          /\ (forall nv, In nv (i_views ins') -> fst (snd nv) = w)
+          /\ forall ops, Agree (wrun VRepaired h' ops))
+  /\ (forall h i name tags kd h' vh, Inv h -> get_view h i name tags kd = (h', Ok vh) ->
+        exists ins', lookup i (h_insts h') = Some ins' /\ lookup name (i_views ins') = Some vh
+          /\ i_wrapper ins' = Some (fst vh)).
+Proof. exact whole_field_views_follow. Qed.
+
+(* the invariant behind it holds for every parsed document and is kept by every operation *)
+Theorem C10_whole_field_invariant :
+  (forall its, Inv (init_heap its)) /\ (forall h o, Inv h -> Inv (fst (wstep VRepaired h o))).
+Proof. split; [exact init_inv|exact wstep_inv]. Qed.
+
+(* seeded regression C10-m3 (drop_views_of stops after the first cached view): the sibling view stays cached, built on
+   the replaced wrapper;  the code as found (no drop_views_of at all) likewise *)
+Theorem C10_whole_field_drop_first_refuted : exists its ops, ~ Agree (wrun VDropFirst (init_heap its) ops).
+Proof. exact drop_first_refuted. Qed.
+Theorem C10_asfound_whole_field_keep_views_refuted : exists its ops, ~ Agree (wrun VKeepViews (init_heap its) ops).
+Proof. exact keep_views_refuted. Qed.
+
+(* `model.view += xs` is view.extend(xs): the assignment of the cached view to itself is a no-op;
+   `model.raw_xs += xs` likewise (replace_node(node, node) returns, no view is dropped, the heap is untouched) *)
+Theorem C10_iadd_is_extend :
+  (forall h i name tags kd xs,
+     iadd_view VRepaired h i name tags kd xs =
+     match get_view h i name tags kd with
+     | (h1, Err e) => (h1, Err e)
+     | (h1, Ok vh) => match edit h1 (fst vh) (VExtend (snd vh) xs) with
+                      | (h2, Err e) => (h2, Err e)
+                      | (h2, Ok _) => (h2, Ok RNone)
+                      end
+     end)
+  /\ (forall h i xs, Inv h ->
+        iadd_raw VRepaired h i xs =
+        match get_wrapper h i with
+        | (h1, Err e) => (h1, Err e)
+        | (h1, Ok w) => match edit h1 w (RExtend xs) with
+                        | (h2, Err e) => (h2, Err e)
+                        | (h2, Ok _) => (h2, Ok RNone)
+                        end
+        end).
+Proof. exact iadd_is_extend. Qed.
+Theorem C10_asfound_iadd_raises_refuted :
+  exists h i name tags kd xs h2, iadd_view VIaddRaises h i name tags kd xs = (h2, Err NotImplementedErr) /\ h2 <> h.
+Proof. exact iadd_raises_refuted. Qed.
+
+(* non-vacuity: tags and links read, the field replaced by a deep copy of another transaction's: nothing stale is
+   cached, the views read again are built on the new wrapper 5 and show its list *)
+Example C10_whole_field_instance :
+  let h := wrun VRepaired (init_heap ex_its) (ex_read ++ [WCopy 3; WAssign 0 5; WGetView 0 1 [1] KString; WGetView 0 2 [2] KString]) in
+  Agree h /\ Inv h
+  /\ lookup 0 (h_insts h) = Some (mkinst 4 false (Some 5) [(1, (5, 0%nat)); (2, (5, 1%nat))])
+  /\ option_map (fun W => map v_idx (w_views W)) (lookup 5 (h_wrps h)) = Some [[1]; [0]].
+Proof.
+  cbv zeta. split; [apply inv_agree, wrun_inv, init_inv|]. split; [apply wrun_inv, init_inv|]. vm_compute. split; reflexivity.
+Qed.
+Example C10_iadd_instance :
+  fst (iadd_view VRepaired (init_heap ex_its) 0 1 [1] KString [mkelem 1 0 7])
+  = fst (wstep VRepaired (fst (wstep VRepaired (init_heap ex_its) (WGetView 0 1 [1] KString))) (WEdit 2 (VExtend 0 [mkelem 1 0 7])))
+  /\ snd (iadd_view VRepaired (init_heap ex_its) 0 1 [1] KString [mkelem 1 0 7]) = Ok RNone.
+Proof. vm_compute. split; reflexivity. Qed.
